@@ -334,6 +334,8 @@ fn files_of(dir: &std::path::Path) -> BTreeSet<String> {
 
 fn res_class_eq(a: &Res, b: &Res) -> Option<&'static str> {
     match (a, b) {
+        // the same failure on both sides is the same behaviour (it belongs to another property)
+        (Res::Panic(_), Res::Panic(_)) => None,
         (Res::Panic(_), _) | (_, Res::Panic(_)) => Some("panic"),
         (Res::Err(_), Res::Err(_)) => None,
         (Res::Err(_), _) | (_, Res::Err(_)) => Some("error-one-side"),
@@ -451,7 +453,15 @@ fn run_case(tw: &Twin, tm: &Tmpl, val: &Pv, path: Path, table: &str, rep: &mut R
             return Some(Outcome { what: "setup-failed".into(), expected: format!("{s} succeeds in both twins"), observed: format!("A: {} / B: {}", ra.show(), rb.show()) });
         }
     }
-    let files_before = (files_of(&tw.a.dir), files_of(&tw.b.dir));
+    // row 4 holds the value under test (written through the same API call in both twins)
+    for db in [da, db_] {
+        let r = checks::sqlh::exec_params(db, &format!("INSERT INTO {table} VALUES (?, ?, ?)"), &[OV::Int(4), val.v.clone(), OV::Text("four".into())]);
+        if !matches!(r, Res::Affected(1, _)) {
+            return Some(Outcome { what: "setup-failed".into(), expected: "row 4 with the value under test can be inserted".into(), observed: r.show() });
+        }
+    }
+    let check_files = val.class.starts_with("text-inject");
+    let files_before = if check_files { (files_of(&tw.a.dir), files_of(&tw.b.dir)) } else { (BTreeSet::new(), BTreeSet::new()) };
     let p1 = params_for(tm, val, false);
     let p2 = params_for(tm, val, true);
     let sql = tm.sql.replace("{T}", table);
@@ -509,9 +519,15 @@ fn run_case(tw: &Twin, tm: &Tmpl, val: &Pv, path: Path, table: &str, rep: &mut R
             }
         }
     }
+    match (&a1, &b1) {
+        (Res::Err(_), Some(Res::Err(_))) => rep.count("cases_both_twins_failed", 1),
+        (Res::Panic(_), Some(Res::Panic(_))) => rep.count("cases_both_twins_panicked", 1),
+        (x, Some(y)) if x.ok() && y.ok() => rep.count("cases_both_twins_succeeded", 1),
+        _ => {}
+    }
     // 2. post-state
     let mut queries = vec![format!("SELECT * FROM {table}"), format!("SELECT COUNT(*) FROM {table}"), "SELECT * FROM other".to_string(), "SELECT COUNT(*) FROM other".to_string()];
-    for id in [1, 2, 3, 10, 11, 12, 13] {
+    for id in [1, 2, 3, 4, 10, 11, 12, 13] {
         queries.push(format!("SELECT * FROM {table} WHERE id = {id}"));
     }
     if !direct_only {
@@ -523,8 +539,11 @@ fn run_case(tw: &Twin, tm: &Tmpl, val: &Pv, path: Path, table: &str, rep: &mut R
         }
     }
     // 3. schema: the statement created / removed no file, in either twin
-    let files_after = (files_of(&tw.a.dir), files_of(&tw.b.dir));
+    let files_after = if check_files { (files_of(&tw.a.dir), files_of(&tw.b.dir)) } else { (BTreeSet::new(), BTreeSet::new()) };
     let ddl_files = dd.is_some();
+    if check_files {
+        rep.count("injection_probes_with_file_set_check", 1);
+    }
     if !ddl_files && (files_after.0 != files_before.0) {
         let diff: Vec<&String> = files_after.0.symmetric_difference(&files_before.0).collect();
         return Some(Outcome { what: "schema-changed".into(), expected: "the set of database files is unchanged by a DML statement".into(), observed: format!("files changed: {diff:?}") });
@@ -571,15 +590,18 @@ fn run_case(tw: &Twin, tm: &Tmpl, val: &Pv, path: Path, table: &str, rep: &mut R
                         return Some(Outcome { what: "stored-value-direct".into(), expected: exp_desc, observed: format!("a = {}", show(&a)) });
                     }
                 }
-                Ok(Err(e)) => return Some(Outcome { what: "stored-value-direct".into(), expected: exp_desc, observed: format!("{q} => Err({e})") }),
-                Err(p) => return Some(Outcome { what: "panic".into(), expected: exp_desc, observed: format!("{q} => PANIC({p})") }),
+                // a failing read was already compared with the twin's (step 2); without a twin it is a verdict
+                Ok(Err(e)) if direct_only => return Some(Outcome { what: "stored-value-direct".into(), expected: exp_desc, observed: format!("{q} => Err({e})") }),
+                Err(p) if direct_only => return Some(Outcome { what: "panic".into(), expected: exp_desc, observed: format!("{q} => PANIC({p})") }),
+                _ => {}
             }
         }
     }
     None
 }
 
-fn cases(tms: &[Tmpl], vals: &[Pv]) -> Vec<Case> {
+const REDUCED: [&str; 9] = ["int-typical", "float-typical", "null", "bool-true", "text-plain", "text-quote", "text-inject-drop", "text-2kb", "blob-typical"];
+fn cases(tms: &[Tmpl], vals: &[Pv], thorough: bool) -> Vec<Case> {
     let mut v = Vec::new();
     for path in [Path::Params, Path::PreparedFirst, Path::PreparedQuery, Path::PreparedSecond, Path::AfterCreateIndex, Path::AfterAddColumn] {
         for (ti, tm) in tms.iter().enumerate() {
@@ -588,6 +610,11 @@ fn cases(tms: &[Tmpl], vals: &[Pv]) -> Vec<Case> {
             }
             for (vi, pv) in vals.iter().enumerate() {
                 if tm.only_int && pv.class != "int-typical" {
+                    continue;
+                }
+                // quick tier: plan invalidation after DDL and repeated SELECTs do not depend on the value: reduced value set
+                let repeated = matches!(path, Path::PreparedSecond | Path::AfterCreateIndex | Path::AfterAddColumn);
+                if !thorough && !REDUCED.contains(&pv.class) && (matches!(path, Path::AfterCreateIndex | Path::AfterAddColumn) || (repeated && tm.select)) {
                     continue;
                 }
                 v.push(Case { tmpl: ti, val: vi, path });
@@ -633,7 +660,7 @@ impl Check for C13 {
         let thorough = !ctx.quick();
         let tms = templates();
         let vals = values(thorough);
-        let all = cases(&tms, &vals);
+        let all = cases(&tms, &vals, thorough);
         rep.bound("templates", json!(tms.iter().map(|t| t.name).collect::<Vec<_>>()));
         rep.bound("values", json!(vals.iter().map(|v| v.class).collect::<Vec<_>>()));
         rep.bound("cases", json!(all.len()));
@@ -650,6 +677,12 @@ impl Check for C13 {
                 rep.capped("deadline before all batches ran");
                 return;
             }
+            if let Some(o) = only_t {
+                if !chunk.iter().any(|c| tms[c.tmpl].name == o) {
+                    continue;
+                }
+            }
+            let t0 = std::time::Instant::now();
             let tw = match setup_twin(&ctx.scratch, &format!("b{bi}")) {
                 Ok(t) => t,
                 Err(e) => {
@@ -658,6 +691,7 @@ impl Check for C13 {
                     return;
                 }
             };
+            rep.count("zz_us_setup_twin", t0.elapsed().as_micros() as u64);
             for (ci, c) in chunk.iter().enumerate() {
                 let (tm, pv) = (&tms[c.tmpl], &vals[c.val]);
                 if let Some(o) = only_t {
@@ -666,7 +700,9 @@ impl Check for C13 {
                     }
                 }
                 rep.begin_case(&format!("{} {} {}", tm.name, pv.class, c.path.name()));
+                let t0 = std::time::Instant::now();
                 let out = run_case(&tw, tm, pv, c.path, &format!("t{ci}"), rep);
+                rep.count("zz_us_run_case", t0.elapsed().as_micros() as u64);
                 rep.bulk(1, 1);
                 rep.count(&format!("cases_path_{}", c.path.name()), 1);
                 rep.count(&format!("cases_kind_{:?}", pv.kind), 1);
@@ -696,8 +732,14 @@ impl Check for C13 {
                     }
                 }
             }
-            // coarse agreement counters
-            let _ = &tw;
+            // the twins created exactly the same files
+            let (fa, fb) = (files_of(&tw.a.dir), files_of(&tw.b.dir));
+            rep.count("batches_file_sets_compared", 1);
+            if fa != fb {
+                let diff: Vec<&String> = fa.symmetric_difference(&fb).collect();
+                rep.count("batches_file_sets_differ", 1);
+                rep.note(&format!("batch {bi}: twins differ in files {diff:?}"));
+            }
         }
         rep.sample(|| case_json(&tms[8], &vals[24], Path::PreparedSecond));
     }
